@@ -35,6 +35,35 @@ def load_contract_modules():
         importlib.import_module(f"contracts.{m}")
 
 
+def _perturbed(x, rng):
+    """a copy of the (JSON-like) arguments with one float leaf scaled by a few per cent"""
+    import copy
+
+    y = copy.deepcopy(x)
+    leaves = []
+
+    def walk(o, path):
+        if isinstance(o, dict):
+            for k, v in o.items():
+                walk(v, path + [k])
+        elif isinstance(o, list):
+            if len(o) <= 16:
+                for k, v in enumerate(o):
+                    walk(v, path + [k])
+        elif isinstance(o, float) and o != 0.0:
+            leaves.append(path)
+
+    walk(y, [])
+    if not leaves:
+        return y
+    path = leaves[rng.randrange(len(leaves))]
+    o = y
+    for k in path[:-1]:
+        o = o[k]
+    o[path[-1]] = o[path[-1]] * rng.choice([0.93, 1.07, 1.31])
+    return y
+
+
 def main():
     req = json.loads(sys.stdin.read())
     load_contract_modules()
@@ -65,6 +94,11 @@ def main():
     known = req.get("known", [])  # lists of substrings: failures matching one of them are recorded findings
     known_failures = []
     known_count = {}
+    # history: before about half of the (cheap) cases a perturbed sibling of the case - one numeric leaf changed - is run through the same real code
+    # in this interpreter and its outcome ignored.  A result that depends on what was computed before (a memo keyed on part of the inputs, state left on
+    # a re-used object) then shows up as a failure of the case itself, whose contract is checked against independent references.
+    rng_h = random.Random(req.get("seed", 0) + 7919)
+    last_cost = 0.0
     for _ in range(n):
         if time.time() > t_end:
             break
@@ -74,7 +108,18 @@ def main():
         distinct.add(key)
         if len(samples) < 3:
             samples.append(jsonable(args))
+        if last_cost < 1.0 and rng_h.random() < 0.5:
+            sib = _perturbed(jsonable(args), rng_h)
+            signal.alarm(per_case)
+            try:
+                with contextlib.redirect_stdout(io.StringIO()):
+                    nat.check(sib)
+            except BaseException:  # noqa: BLE001 - the sibling only creates history (it may violate the case's precondition)
+                pass
+            finally:
+                signal.alarm(0)
         signal.alarm(per_case)
+        t_case = time.time()
         try:
             with contextlib.redirect_stdout(io.StringIO()):
                 ok, detail = nat.check(args)
@@ -84,6 +129,7 @@ def main():
             ok, detail = None, "harness exception: " + traceback.format_exc()[-1500:]
         finally:
             signal.alarm(0)
+            last_cost = time.time() - t_case
         if ok is not True:
             rec = {"args": jsonable(args), "ok": ok, "detail": jsonable(detail)}
             text = json.dumps(rec["args"], sort_keys=True) + " " + json.dumps(rec["detail"])
